@@ -33,11 +33,24 @@ def clause(ex, st, contract, node, frame_vars, old=None):
     return S.truthy(v)
 
 
+def clause_term(ex, st, contract, node, frame_vars):
+    """evaluate a clause expression to an Int term (decreases measures)"""
+    from .engine import Exec
+    sub = Exec(ex.eng, ex.fr, total=True, modname=None, specmod=contract.specmod)
+    st.frames.append(frame_vars)
+    try:
+        v = sub.one(st, node)
+    finally:
+        st.frames.pop()
+    return sub.as_int(v)
+
+
 def call_key(ex, fi, node):
     """stable key for a call site inside the caller: '<callee>#<k>' (k-th call of that
     callee in the caller's source, in source order)"""
     short = fi.qualname.split(".")[-1]
-    root = ex.fr.finfo.node if ex.fr.finfo is not None else None
+    stack = getattr(ex.fr, "func_stack", None)
+    root = stack[-1] if stack else (ex.fr.finfo.node if ex.fr.finfo is not None else None)
     k = 0
     if root is not None and node is not None:
         sites = []
@@ -108,7 +121,7 @@ def apply(ex, st, c, fi, bound, node):
     caller = ex.fr.contract
     gspec = None
     if caller is not None:
-        gspec = caller.call_ghosts.get(key) or caller.call_ghosts.get(short)
+        gspec = caller.call_ghosts.get(key) or caller.call_ghosts.get(short) or caller.call_ghosts.get("*")
     for g, tag in c.ghosts.items():
         if gspec is None or g not in gspec:
             raise _U(f"no ghost witness for {g} at call {key} in {caller}")
